@@ -7,7 +7,7 @@
    redirPlaintextHost), httpserver/plugin.go (standardizeAddress scheme/port rules, MakeServers'
    TLS-disabling loop, groupSiteConfigsByListenAddr's default port), and Go's net.SplitHostPort,
    net.ParseIP (netip.ParseAddr), IPNet.Contains for the four literal CIDRs. *)
-Require Import V.Lib V.GoPath.
+Require Import V.Lib V.GoPath V.Gen_C15.
 Open Scope N_scope.
 Arguments bs _%string_scope.
 
@@ -205,8 +205,27 @@ Definition parse_ip (s : bytes) : option (list N) :=
 Definition to4 (ip : list N) : option (list N) :=
   if list_beq N.eqb (firstn 12 ip) (repeat 0 10 ++ [255; 255]) then Some (skipn 12 ip) else None.
 
-(* membership in 10.0.0.0/8, 172.16.0.0/12, 192.168.0.0/16, fc00::/7 as IPNet.Contains decides it *)
+(* net.IPNet.Contains for a network (IP, Mask) as net.ParseCIDR returns it (4+4 bytes for an IPv4
+   network, 16+16 for an IPv6 one): the address is first reduced by To4, a length mismatch is "no",
+   otherwise the masked bytes are compared *)
+Fixpoint masked_eq (nn m ip : list N) : bool :=
+  match nn, m, ip with
+  | a :: nn', k :: m', b :: ip' => (N.land a k =? N.land b k) && masked_eq nn' m' ip'
+  | [], _, [] => true
+  | _, _, _ => false
+  end.
+Definition ipnet_contains (n : list N * list N) (ip : list N) : bool :=
+  let ip' := match to4 ip with Some x => x | None => ip end in
+  Nat.eqb (length ip') (length (fst n)) && masked_eq (fst n) (snd n) ip'.
+
+(* the loop over privateNetworks (table regenerated from casket.go: Gen_C15.v) *)
 Definition in_private_net (ip : list N) : bool :=
+  existsb (fun n => ipnet_contains n ip) gen_c15_private_nets.
+
+(* the same membership in closed form, for the table as it stands: 10.0.0.0/8, 172.16.0.0/12,
+   192.168.0.0/16 on the To4 form, fc00::/7 on the first byte otherwise (proved equal to the fold on
+   every 16-byte address in C15_Proofs) *)
+Definition in_private_net_closed (ip : list N) : bool :=
   match to4 ip with
   | Some (a :: b :: _) =>
       (a =? 10) || ((a =? 172) && (16 <=? b) && (b <=? 31)) || ((a =? 192) && (b =? 168))
@@ -215,21 +234,34 @@ Definition in_private_net (ip : list N) : bool :=
   end.
 
 (* ------------------------------------------------------------------ casket.IsLoopback / IsInternal *)
-Definition is_loopback (addr : bytes) : bool :=
-  let host := match split_host_port (to_lower addr) with Some (h, _) => h | None => addr end in
-  beq host (bs "localhost") || beq (trim_brackets host) (bs "::1")
-  || has_prefix host (bs "127.") || has_suffix host (bs ".localhost").
+(* the return expression of IsLoopback on the host it extracted; the literals are regenerated from
+   casket.go (Gen_C15.v): host == "localhost" || strings.Trim(host, "[]") == "::1" ||
+   strings.HasPrefix(host, "127.") || strings.HasSuffix(host, ".localhost") *)
+Definition is_loopback_host (host : bytes) : bool :=
+  existsb (beq host) gen_c15_loopback_eq
+  || existsb (fun ct => beq (trim (fst ct) host) (snd ct)) gen_c15_loopback_trim_eq
+  || existsb (has_prefix host) gen_c15_loopback_prefixes
+  || existsb (has_suffix host) gen_c15_loopback_suffixes.
 
-Definition private_tlds : list bytes := [bs ".example"; bs ".invalid"; bs ".test"; bs ".local"].
+(* on a SplitHostPort error the UNLOWERED address is judged *)
+Definition loopback_hostpart (addr : bytes) : bytes :=
+  match split_host_port (to_lower addr) with Some (h, _) => h | None => addr end.
+Definition is_loopback (addr : bytes) : bool := is_loopback_host (loopback_hostpart addr).
 
-Definition is_internal (addr : bytes) : bool :=
-  let host := match split_host_port addr with Some (h, _) => h | None => trim_brackets addr end in
+Definition private_tlds : list bytes := gen_c15_private_tlds.
+
+Definition internal_hostpart (addr : bytes) : bytes :=
+  match split_host_port addr with Some (h, _) => h | None => trim_brackets addr end.
+Definition is_internal_host (host : bytes) : bool :=
   existsb (has_suffix host) private_tlds ||
   match parse_ip host with Some ip => in_private_net ip | None => false end.
+Definition is_internal (addr : bytes) : bool := is_internal_host (internal_hostpart addr).
 
 (* ------------------------------------------------------------------ certmagic subject checks *)
 Definition is_space (c : N) : bool := ((9 <=? c) && (c <=? 13)) || (c =? 32).
-Definition cert_special : bytes := bs "()[]{}<> " ++ [9; 10; 34; 92] ++ bs "!@#$%^&|;'+=".
+(* the ContainsAny set of SubjectQualifiesForCert: brackets, braces, angle brackets, space, tab, newline,
+   double quote, backslash and ! @ # $ % ^ & | ; ' + =   (table: Gen_C15.v) *)
+Definition cert_special : bytes := gen_c15_cert_special.
 
 Definition subject_qualifies_for_cert (s : bytes) : bool :=
   negb (forallb is_space s)
@@ -237,9 +269,9 @@ Definition subject_qualifies_for_cert (s : bytes) : bool :=
   && (negb (contains_byte STAR s) || has_prefix s [STAR; DOT] || beq s [STAR])
   && negb (contains_any s cert_special).
 
+(* subj == "localhost" || HasSuffix .localhost / .local / .home.arpa  (tables: Gen_C15.v) *)
 Definition subject_is_internal (s : bytes) : bool :=
-  beq s (bs "localhost") || has_suffix s (bs ".localhost") || has_suffix s (bs ".local")
-  || has_suffix s (bs ".home.arpa").
+  existsb (beq s) gen_c15_cert_internal_eq || existsb (has_suffix s) gen_c15_cert_internal_suffixes.
 
 Definition subject_is_ip (s : bytes) : bool := match parse_ip s with Some _ => true | None => false end.
 
@@ -408,6 +440,10 @@ Definition strip_port_go (hh : bytes) : bytes :=
 Definition redir_location (rport hosthdr uri : bytes) : bytes :=
   hex_escape_non_ascii
     (bs "https://" ++ strip_port_go hosthdr ++ (match rport with [] => [] | _ => COLON :: rport end) ++ uri).
+
+(* what the handler answers: status, Location, and the Connection header it sets before http.Redirect *)
+Definition redir_response (rport hosthdr uri : bytes) : N * bytes * bytes :=
+  (301, redir_location rport hosthdr uri, bs "close").
 
 (* ================================================================== executable spec *)
 (* the property's own words, evaluated on the implementation's output *)
@@ -586,10 +622,12 @@ Inductive case :=
 | CAddrErr (sch prt : bytes)
 (* one request to a synthesised redirect site: handler inputs r.Host and r.URL.RequestURI() as net/http
    parsed them, the raw Host/target sent, observed status and Location *)
-| CRedir (rport hosthdr uri hostsent target : bytes) (obs_status : N) (obs_loc : bytes)
+| CRedir (rport hosthdr uri hostsent target : bytes) (obs_status : N) (obs_loc obs_conn : bytes)
 (* classifiers on one string *)
 | CClass (l : hlabel) (s : bytes) (o_loop o_int o_pub : bool)
 | CIP (s : bytes) (obs : option (list N))
+(* IPNet.Contains of the four private networks (parsed by net.ParseCIDR in the harness) on net.ParseIP(s) *)
+| CNet (s : bytes) (obs : list bool)
 | CSplit (s : bytes) (obs : option (bytes * bytes))
 (* input the harness could not turn into a run (e.g. net/http rejected the request line) *)
 | CSkip.
@@ -629,6 +667,8 @@ Definition judge (c : case) : N :=
   | CPipe ds oa ob =>
       let agree :=
         forallb addr_agrees ds &&
+        (* Address.Normalize: site hosts reach the (case-sensitive) classifiers lower-cased *)
+        forallb (fun d => beq (to_lower (da_host d)) (da_host d)) ds &&
         match init_sites ds with
         | None => false
         | Some init =>
@@ -645,8 +685,9 @@ Definition judge (c : case) : N :=
       verdict agree spec
   | CSetupErr d => verdict (match tls_setup d with None => true | Some _ => false end) true
   | CAddrErr sch prt => verdict (match std_addr sch prt with None => true | Some _ => false end) true
-  | CRedir rport hh uri hs target st loc =>
-      let agree := (st =? 301) && beq (redir_location rport hh uri) loc in
+  | CRedir rport hh uri hs target st loc conn =>
+      let '(mst, mloc, mconn) := redir_response rport hh uri in
+      let agree := (st =? mst) && beq mloc loc && beq mconn conn in
       let spec :=
         (st =? 301) && has_prefix loc (bs "https://") &&
         (if safe_host hs && safe_target target then beq loc (spec_location rport hs target) else true) in
@@ -661,6 +702,13 @@ Definition judge (c : case) : N :=
                | None, None => true
                | _, _ => false
                end) true
+  | CNet s obs =>
+      match parse_ip s with
+      | Some ip =>
+          verdict (list_beq Bool.eqb (map (fun n => ipnet_contains n ip) gen_c15_private_nets) obs)
+                  (Bool.eqb (existsb (fun b => b) obs) (in_private_net_closed ip))
+      | None => verdict (match obs with [] => true | _ => false end) true
+      end
   | CSplit s obs =>
       verdict (match split_host_port s, obs with
                | Some (h, p), Some (h', p') => beq h h' && beq p p'
